@@ -196,3 +196,39 @@ SPECS += [
          ROUND[1],
          "forall(i, 0, len(x), log_j[i] == old(log_j)[i])"]},
 ]
+
+
+# ---- Angle: round trip MODULO two stated facts about the library's
+# ---- trigonometric functions (polar decomposition: not proved here; they are
+# ---- hypotheses of the lemma, instantiated at the rows)
+RA = "nessai/reparameterisations/angle.py"
+XA = "Struct(a:Real,r:Real,logP:Real,logL:Real)"
+XAP = "Struct(a_x:Real,a_y:Real,logP:Real,logL:Real)"
+_PHI = "(x['a'][i] * self.scale)"
+_RC = f"(x['r'][i] * COS({_PHI}))"
+_RS = f"(x['r'][i] * SIN({_PHI}))"
+SPECS += [
+    {"name": "Angle:inverse∘forward (modulo polar-decomposition facts)",
+     "first": (RA, "Angle.reparameterise"),
+     "second": (RA, "Angle.inverse_reparameterise"),
+     "self_shape": "AngleRP",
+     "params": {"x": XA, "x_prime": XAP, "log_j": "Seq(Real)"},
+     "assume": [
+         "len(x) == len(x_prime) and len(log_j) == len(x)",
+         "self.scale > 0 and not self._zero_bound",
+         # where the map is regular: positive radius, angle (times scale)
+         # in (-pi, pi]
+         f"forall(i, 0, len(x), x['r'][i] > 0 and -PI < {_PHI} and "
+         f"{_PHI} <= PI)",
+         # LIBRARY FACTS (hypotheses): arctan2 / sqrt invert the polar map
+         f"forall(i, 0, len(x), ARCTAN2({_RS}, {_RC}) == {_PHI})",
+         f"forall(i, 0, len(x), SQRT({_RC} * {_RC} + {_RS} * {_RS}) == "
+         f"x['r'][i])"],
+     "args1": ["x", "x_prime", "log_j"], "args2": ["x", "x_prime", "log_j"],
+     "prove": ["forall(i, 0, len(x), x['r'][i] == old(x['r'])[i])",
+               "forall(i, 0, len(x), x['a'][i] * self.scale == "
+               "old(x['a'])[i] * self.scale)",
+               "forall(i, 0, len(x), x['logL'][i] == old(x['logL'])[i] and "
+               "x['logP'][i] == old(x['logP'])[i])",
+               "forall(i, 0, len(x), log_j[i] == old(log_j)[i])"]},
+]
